@@ -12,6 +12,9 @@ def scenario(G, K, mode):
         if mode == "nested":
             hist, frel = "R/A", "R/A/f.txt"
             b.mkfile("R/top.txt", 900)
+        elif mode == "parent-of-nested":
+            hist, frel = "R", "R/f.txt"
+            b.mkfile("R/A/a.txt", 900)
         else:
             hist, frel = "R", "R/f.txt"
         v = [sym.int("v%d" % i, 1, 3) for i in range(G)]
@@ -22,6 +25,8 @@ def scenario(G, K, mode):
         first = {}  # fmt -> (digest, generation)
         all_same = True
         for g in range(G):
+            if g == 1 and mode == "parent-of-nested" and sym.flag("same_relpath_appears_in_child"):
+                b.mkfile("R/A/f.txt", 901)  # a new, unrecorded file at the same history-relative path in the nested history
             if g > 0:
                 b.alter(frel, v[g])
                 if not truth(v[g] == v[0]):
@@ -32,6 +37,12 @@ def scenario(G, K, mode):
             b.note("gen%d: -h %s" % (g, ",".join(req)))
             if mode == "sf":
                 r = b.run("create", root="R", h=req, sf=[frel])
+            elif mode == "parent-of-nested" and g == 0:
+                r = b.run("create", root="R/A", h=req, n=True)
+                b.require(r.exit == 0, "setup-create", str(r))
+                r = b.run("create", root="R", h=req, n=True)
+            elif mode == "parent-of-nested":
+                r = b.run("create", root="R", h=req, n=True)
             elif mode == "nested" and g == 0:
                 r = b.run("create", root="R/A", h=req, n=True)
             elif mode == "nested":
@@ -98,9 +109,9 @@ def b_notes(b):
 def harnesses(tier):
     hs = []
     if tier == "quick":
-        cfg = [(3, 3, "folder"), (4, 2, "folder"), (2, 3, "sf"), (2, 2, "nested")]
+        cfg = [(3, 3, "folder"), (4, 2, "folder"), (2, 3, "sf"), (2, 2, "nested"), (2, 2, "parent-of-nested")]
     else:
-        cfg = [(4, 3, "folder"), (3, 4, "folder"), (5, 2, "folder"), (4, 3, "sf"), (4, 3, "nested")]
+        cfg = [(4, 3, "folder"), (3, 4, "folder"), (5, 2, "folder"), (4, 3, "sf"), (4, 3, "nested"), (3, 3, "parent-of-nested")]
     for G, K, mode in cfg:
         hs.append(Harness("c04-%s-G%d-K%d" % (mode, G, K), scenario(G, K, mode), frontier=5, budget_s=1500,
                           what="%d create runs over one file, each with any non-empty subset of %s, content kept/altered/"
